@@ -282,6 +282,11 @@ func init() {
 		call(i, fr, token.NoPos, args[0], nil)
 		return false
 	})
+	// vMapOrder(on): make the start position of map iteration a decision
+	reg(hp+"vMapOrder", func(i *interpreter, fr *frame, args []value) value {
+		i.env.mapOrderNondet = args[0].(bool)
+		return nil
+	})
 	// vSymbolic() tells the harness which mode it runs in.
 	reg(hp+"vSymbolic", func(i *interpreter, fr *frame, args []value) value { return true })
 }
